@@ -4,7 +4,7 @@
     (harness/notations.py, runtime reflection).  [covers nt] = every metavariable of the definition has a hole
     in the format string. *)
 From Coq Require Import NArith List Bool.
-From Pi2 Require Import ML.Syntax Py.Pattern Py.Pretty Py.Families Py.PrettyFacts Py.Witness Gen.Notations.
+From Pi2 Require Import ML.Syntax Py.Pattern Py.Pretty Py.Families Py.PrettyFacts Py.Serial Py.SerialFacts Py.Witness Gen.Notations.
 Import ListNotations.
 
 (** all module-level notations of pattern.py / proofs/{propositional,definedness,kore,substitution}.py *)
@@ -61,6 +61,26 @@ Theorem C19_hole_distinguishes : forall f n o nt args args' i r r' s s',
 Proof. exact hole_distinguishes. Qed.
 Print Assumptions C19_hole_distinguishes.
 
+(** [lines_match_opcodes]: for every sequence of interpreter calls (hence for both optimize settings: the
+    memoising wrapper only changes the call sequence) the bytes written by the serialiser decode, uniquely and in
+    order, into exactly one instruction per call = per pretty-printed step ([pretty_step c], Py/Serial.v), each
+    with the operands the step shows; symbols are numbered by first occurrence *)
+Theorem C19_lines_match_opcodes : forall tbl cs,
+  decode (length cs) (emits tbl cs) = Some (instrs_of tbl cs) /\
+  length (instrs_of tbl cs) = length (map pretty_step cs) /\
+  Forall2 step_matches cs (instrs_of tbl cs).
+Proof.
+  intros tbl cs. split; [apply decode_emits|]. split; [rewrite map_length; apply instrs_of_length|apply steps_match].
+Qed.
+Theorem C19_symbols_numbered : forall cs tbl, NoDup tbl ->
+  NoDup (final_tbl tbl cs) /\ (exists e, final_tbl tbl cs = tbl ++ e) /\
+  Forall2 (fun c i => match c, i with
+                      | KSymbol name, ISymbol k => nth_error (final_tbl tbl cs) (N.to_nat k) = Some name
+                      | _, _ => True
+                      end) cs (instrs_of tbl cs).
+Proof. exact symbols_numbered. Qed.
+Print Assumptions C19_lines_match_opcodes.
+
 (** ---- non-vacuity ---- *)
 Definition ex_opts : popts := {| o_simplify := false; o_notations := [bot_nt; neg_nt; and_nt]; o_syms := [] |}.
 Example C19_ex_pretty :
@@ -69,6 +89,10 @@ Example C19_ex_pretty :
 Proof. vm_compute. reflexivity. Qed.
 Example C19_ex_covers : covers and_nt = true.
 Proof. reflexivity. Qed.
+Example C19_ex_emit :
+  emits [] [KSymbol [115;49]; KMetaVar 0 [1] [] [] [] []; KInst [0;1]%N; KSymbol [115;49]] =
+  [4;0; 9;0;1;1;0;0;0;0; 26;2;1;0; 4;0]%N.
+Proof. vm_compute. reflexivity. Qed.
 
 (** ---- D13 (pinned tree): a format string that swallowed its holes prints different patterns alike ---- *)
 Theorem C19_refuted_swallowed_holes :
